@@ -48,6 +48,24 @@ theorem c09_conn_ledger (evs : List (Ev α)) :
   have b := h.2.conn; have b' := h.2.connNonneg
   constructor <;> omega
 
+/-- **nothing leaves without credit**, over any stretch of any schedule: the flow-controlled octets
+    released on a direction during a continuation `sfx` — arbitrary frames of both endpoints, any
+    iteration orders — never exceed the connection window the relay held when `sfx` began plus the
+    connection-level increments it read during `sfx` (ledger differences: `total` counts the DATA
+    octets put on the wire, `c09_ledger_counts_wire`; `incConn` the WINDOW_UPDATE increments on
+    stream 0 the relay processed).  The whole-connection drain theorem `c10_drain_connection` says
+    when this bound is reached. -/
+theorem c09_suffix_within_credit (evs sfx : List (Ev α)) :
+    (after (evs ++ sfx)).2.Lcs.total - (after evs).2.Lcs.total ≤
+      (after evs).1.cs.connWin + ((after (evs ++ sfx)).2.Lcs.incConn - (after evs).2.Lcs.incConn) ∧
+    (after (evs ++ sfx)).2.Lsc.total - (after evs).2.Lsc.total ≤
+      (after evs).1.sc.connWin + ((after (evs ++ sfx)).2.Lsc.incConn - (after evs).2.Lsc.incConn) := by
+  have h0 := c09_bookkeeping evs
+  have h1 := c09_conn_ledger (evs ++ sfx)
+  have a := h0.1.conn
+  have b := h0.2.conn
+  constructor <;> omega
+
 theorem c09_conn_window_nonneg (evs : List (Ev α)) :
     0 ≤ (after evs).1.cs.connWin ∧ 0 ≤ (after evs).1.sc.connWin :=
   ⟨(c09_bookkeeping evs).1.connNonneg, (c09_bookkeeping evs).2.connNonneg⟩
@@ -259,6 +277,20 @@ example :
     (r.cs.streams.get 1).map (·.win) = some (-100) ∧
     (r.step .server (fun _ => []) (.windowUpdate 1 149)).2.back = [] ∧
     ((r.step .server (fun _ => []) (.windowUpdate 1 150)).2.back.flatMap QFrame.send).map Frame.payloadLen = [50] := by
+  decide
+
+/-- `c09_suffix_within_credit` with equality: 100 octets wait behind a stream window of 0 (the
+    connection window still holds 65 535); the continuation grants 60 + 40 on the stream and 7 on
+    the connection: exactly 100 octets leave, 65 535 + 7 would have been allowed -/
+example :
+    let evs : List (Ev Unit) :=
+      [⟨.server, fun _ => [], .settings [(4, 0)]⟩,
+       ⟨.client, fun _ => [], .data 1 (List.replicate 100 ()) none true⟩]
+    let sfx : List (Ev Unit) :=
+      [⟨.server, fun _ => [], .windowUpdate 1 60⟩, ⟨.server, fun _ => [], .windowUpdate 0 7⟩,
+       ⟨.server, fun _ => [], .windowUpdate 1 40⟩]
+    (after (evs ++ sfx)).2.Lcs.total - (after evs).2.Lcs.total = 100 ∧
+    (after evs).1.cs.connWin + ((after (evs ++ sfx)).2.Lcs.incConn - (after evs).2.Lcs.incConn) = 65542 := by
   decide
 
 example : simpleOp (Op.settings (α := Unit) [(5, 20000), (4, 70), (3, 9)]) := by
